@@ -59,8 +59,8 @@ def Val.shape? : Val → Option (List Nat)
 def getShape (v : Val) : Except PyErr (List Nat) :=
   match Val.shape? v with | some s => .ok s | Option.none => .error .attributeError
 
-/-- `np.array(t)` for a tuple of Python ints taken from `.shape`. -/
-def shapeVal (sh : List Nat) : Val := shapeArray (sh.map Int.ofNat)
+/-- `np.array(t, dtype=int)` for a tuple of Python ints taken from `.shape`. -/
+def shapeVal (sh : List Nat) : Val := Val.ofInts (sh.map Int.ofNat)
 
 def typeDict (key : String) (v : Val) : Val := .dict [(key, v)]
 
